@@ -43,7 +43,7 @@ func checkC17(c *core.Ctx) {
 	if c.Thorough() {
 		shapes = enum.Shapes(5, []int{1, 2, 3})
 	}
-	shapes = append(shapes, []int{5}, []int{33}, []int{4, 7}, []int{130})
+	shapes = append(shapes, []int{5}, []int{33}, []int{4, 7}, []int{130}, []int{2, 600}, []int{1, 2048}, []int{3, 1, 7, 64}, []int{1024}, []int{2049}, []int{40, 40})
 	for _, s := range shapes {
 		for li, l := range c17LRs {
 			for gm := 0; gm < 3; gm++ {
@@ -532,13 +532,21 @@ func streamFallback(calls []initCall, got []*ref.T, at int, msg string) core.Ver
 		}
 	}
 	// scale: a large sample of the same call must have moments within 6 sigma
-	big := ic
-	big.Shape = []int{4096}
-	t, _, err := big.run()
-	if err != nil {
-		return core.Fail("%s; and a 4096-element call fails: %v", msg, err)
+	// (the SAME call, shape included, is repeated until 4096 elements are drawn:
+	// a scale that depends on the requested shape must not escape)
+	var x []float64
+	for len(x) < 4096 {
+		t, _, err := ic.run()
+		if err != nil {
+			return core.Fail("%s; and repeating the call fails: %v", msg, err)
+		}
+		v := rt.Read(t).V
+		if len(v) == 0 {
+			return core.Fail("%s; and a repeated call returns no elements", msg)
+		}
+		x = append(x, v...)
 	}
-	x := rt.Read(t).V
+	x = x[:4096]
 	mean, sd := 0., 0.
 	for _, v := range x {
 		mean += v
